@@ -774,7 +774,7 @@ func TestC09(t *testing.T) {
 		}
 	}
 	rng := run.Rand("scenarios")
-	reps := run.N(6, 200)
+	reps := run.N(10, 200)
 	id := 0
 	for r := 0; r < reps; r++ {
 		for _, cb := range combos {
